@@ -40,6 +40,168 @@ SCENARIOS = ('wrap_name', 'wrap_name_attr', 'binop_call', 'call_retarget', 'list
              'compare_pick', 'list_rotate', 'call_rotate', 'body_rotate', 'boolop_rotate')
 
 
+# whole-match slot in every kind of template position x every kind of matched expression (enumerated, flat substitution)
+WRAP_CLASSES = ('Yield', 'YieldFrom', 'Await', 'Lambda', 'IfExp', 'NamedExpr', 'Tuple', 'Compare', 'BoolOp', 'UnaryOp', 'BinOp', 'Dict', 'GeneratorExp', 'Constant', 'Starred', 'Attribute',
+                'Subscript', 'Call', 'ListComp', 'JoinedStr', 'Set')
+WRAP_TEMPLATES = ('f(__FST_, k=__FST_)', '[__FST_]', '__FST_ + 1', 'not __FST_', '__FST_.attr', '__FST_[0]', 'x[__FST_]', '(__FST_ for _ in y)', '__FST_ if c else d', 'c if __FST_ else d',
+                  'lambda: __FST_', '{__FST_: __FST_}', 'f(*__FST_)', '-__FST_ ** 2', 'await __FST_', '(__FST_, 1)', '__FST_ < 2 < __FST_', 'z and __FST_', '[*__FST_]', 'w(**__FST_)', '__FST_()')
+WRAP_PROGRAM = '''async def gen_():
+    v0 = yield a
+    v1 = yield from b
+    v2 = await c
+    v3 = lambda p: p
+    v4 = a if b else c
+    v5 = (w := 1)
+    v6 = a, b
+    v7 = a < b < c
+    v8 = a and b
+    v9 = not a
+    v10 = a + b
+    v11 = {k: v}
+    v12 = (i for i in j)
+    v13 = 1
+    v14 = [*s, t]
+    v15 = o.p
+    v16 = q[r]
+    v17 = h(1)
+    v18 = [e for e in d]
+    v19 = f'{a}b'
+    v20 = {m, n}
+    g((yield a), k=(await b), *[x for x in y])
+    return (-1) ** 2, not (a < b), (lambda: 0)(), (a if b else c).d, (a, b)[0], {1: (x := 2)}
+'''
+
+
+def enumerate_cases(tier, shard, nshards, seed):
+    k = 0
+
+    for ci in range(len(WRAP_CLASSES)):
+        for ti in range(len(WRAP_TEMPLATES)):
+            k += 1
+
+            if k % nshards == shard:
+                yield {'kind': 'wrap', 'cls': ci, 'tmpl': ti}
+
+
+def flatten_boolops(tree):
+    """Nested BoolOps of the same operator spliced into their parent: sub() deliberately puts a same-operator BoolOp into a BoolOp slot as a slice
+    ('z and __FST_' with 'a and b' gives 'z and a and b'), which is the same expression."""
+
+    for n in ast.walk(tree):
+        if isinstance(n, ast.BoolOp):
+            changed = True
+
+            while changed:
+                changed = False
+                vals = []
+
+                for v in n.values:
+                    if isinstance(v, ast.BoolOp) and type(v.op) is type(n.op):
+                        vals.extend(v.values)
+                        changed = True
+                    else:
+                        vals.append(v)
+
+                n.values = vals
+
+    return tree
+
+
+def run_wrap(case, ctx):
+    import fst.match as fm
+
+    cname, tmpl = WRAP_CLASSES[case['cls']], WRAP_TEMPLATES[case['tmpl']]
+    cls = getattr(ast, cname)
+    src = WRAP_PROGRAM
+    pure = ast.parse(src)
+    ttree = ast.parse(tmpl, mode='eval').body
+
+    def fill(t, n):
+        t = copy.deepcopy(t)
+
+        class R(ast.NodeTransformer):
+            def visit_Name(self, x):
+                return copy.deepcopy(n) if x.id == '__FST_' else x
+
+        r = R().visit(t)
+
+        return r
+
+    count = [0]
+
+    def ok(n):
+        return isinstance(n, cls) and isinstance(getattr(n, 'ctx', ast.Load()), ast.Load)
+
+    class T(ast.NodeTransformer):  # pre-order, flat: a matched node is replaced and not descended into
+        def generic_visit(self, n):
+            if ok(n):
+                count[0] += 1
+
+                return fill(ttree, n)
+
+            return super().generic_visit(n)
+
+        def visit(self, n):
+            if isinstance(n, (ast.JoinedStr,)) and cls is not ast.JoinedStr:
+                return n  # interiors of f-strings are not match sites here
+
+            return self.generic_visit(n)
+
+    try:
+        expected = T().visit(copy.deepcopy(pure))
+        ast.fix_missing_locations(expected)
+        exp_S = c07.norm_dump(ast.parse(ast.unparse(expected)))
+        model_ok = c07.norm_dump(expected) == exp_S
+        exp_S = c07.norm_dump(flatten_boolops(ast.parse(ast.unparse(expected))))
+    except Exception as exc:
+        raise Skip(f'reference_failed:{type(exc).__name__}') from None
+
+    if not model_ok:
+        ctx.count('wrap_model_not_valid_python')  # e.g. '*' of a yield without parentheses cannot be expressed: the pair is outside the domain
+
+        return
+
+    pat = getattr(fm, 'M' + cname)(ctx=ast.Load) if cname in ('Tuple', 'Starred', 'Attribute', 'Subscript') else cls
+    desc = f'sub({cname} -> {tmpl!r}, flat) on the expression kinds program'
+    site = f'wrap:{cname}'
+    root = FST(src, 'exec')
+    ctx.count('subs')
+    ctx.count('scenario:wrap')
+
+    try:
+        out, n_unique, n_total = root.subn(pat, tmpl, nested=False, norm=True)
+    except Exception as exc:
+        ctx.count(f'sub_raised:{type(exc).__name__}@{fst_site(exc)}')
+
+        try:
+            c01.check_invariant(root, None, 'C18.c01_after_raise')
+        except Violation as v:
+            raise Violation('C18.raise_desync', f'{desc} raised {exc!r} and left source and tree out of sync: {v.msg[:500]}', f'raise:{site}') from None
+
+        return
+
+    try:
+        got_S = c07.norm_dump(flatten_boolops(ast.parse(root.src)))
+    except SyntaxError as exc:
+        raise Violation('C18.unparsable', f'{desc}: result does not parse: {exc!r}\n--- after ---\n{root.src[:900]}', site) from None
+
+    if got_S != exp_S:
+        from ..oracle import first_diff
+
+        raise Violation('C18.structure', f'{desc}: result != reference {first_diff(got_S, exp_S)}\n--- after ---\n{root.src[:900]}\n--- reference ---\n{ast.unparse(expected)[:900]}', site)
+
+    try:
+        c01.check_invariant(root, None, 'C18.c01')
+    except Violation as v:
+        raise Violation('C18.c01', f'{desc}: {v.msg[:800]}', site) from None
+
+    if (n_unique, n_total) != (count[0], count[0]):
+        raise Violation('C18.counts', f'{desc}: subn reports ({n_unique}, {n_total}), reference performed {count[0]}', f'counts:{site}')
+
+    if count[0]:
+        ctx.mark_nontrivial(('wrap', cname, tmpl), {'matched_kind': cname, 'template': tmpl, 'substitutions': count[0], 'after': root.src[:300]} if (case['cls'] * 7 + case['tmpl']) % 41 == 0 else None)
+
+
 def params(tier):
     if tier == 'quick':
         return {'examples': 2500, 'wall': 80, 'case_timeout': 40}
@@ -366,6 +528,9 @@ def run_loop(case, ctx):
 def execute(case, ctx):
     if case.get('kind') == 'loop':
         return run_loop(case, ctx)
+
+    if case.get('kind') == 'wrap':
+        return run_wrap(case, ctx)
 
     src = case['src']
 
